@@ -292,6 +292,7 @@ def account(prog, out, judge, acc, case, mode, plan):
     key, detail, sig = judge(prog, out)
     s = out.sched
     acc.count2('oracle', 'schedules_judged')
+    acc.executed()
     acc.count2('sched', 'lomond_line_yield_points', s.lomond_yields)
     acc.count2('sched', 'context_switches', len(s.schedule_signature()))
     acc.count2('sched', 'sendall_mid_yields', getattr(out, 'mid', 0))
@@ -313,7 +314,7 @@ def account(prog, out, judge, acc, case, mode, plan):
             acc.count2('oracle', 'rsv1_frames_inflated_in_wire_order', len(sig))
         if acc.counters['oracle']['schedules_judged'] % 1499 == 1:
             acc.sample(dict(program=case.get('prog'), switches=[list(x) for x in s.schedule_signature()][:12],
-                            preemptions=s.preemptions, steps=s.step, wire=detail.get('decoded')))
+                            preemptions=s.preemptions, steps=s.step, wire=detail.get('decoded') or detail.get('wire')))
 
 
 def mechanism(prog, key):
